@@ -94,7 +94,9 @@ type vC04Oracle struct {
 	failMs bool   // next MsgsBetweenSeqNums call fails
 }
 
-func vC04NewOracle(w *vC04World, id int, maxTree uint64) *vC04Oracle {
+// noRead: per source chain the one oracle that does not read it (-1: everybody reads it); with f = 1 per chain every
+// chain keeps its 3 = 2f+1 designated readers, the destination is read by everybody
+func vC04NewOracle(w *vC04World, id int, maxTree uint64, noRead map[cciptypes.ChainSelector]int) *vC04Oracle {
 	o := &vC04Oracle{id: id}
 	hc := vNewHomeChain()
 	m := map[commontypes.OracleID]libocrtypes.PeerID{}
@@ -105,7 +107,13 @@ func vC04NewOracle(w *vC04World, id int, maxTree uint64) *vC04Oracle {
 	}
 	hc.SetChain(vC04Dest, 1, peers)
 	for _, ch := range vC04Sources {
-		hc.SetChain(ch, 1, peers)
+		var readers []libocrtypes.PeerID
+		for i := 0; i < vC04N; i++ {
+			if noRead[ch] != i {
+				readers = append(readers, vPeer(i))
+			}
+		}
+		hc.SetChain(ch, 1, readers)
 	}
 	hc.OCR = reader.ActiveAndCandidate{ActiveConfig: reader.OCR3ConfigWithMeta{ConfigDigest: [32]byte{1}}, CandidateConfig: reader.OCR3ConfigWithMeta{ConfigDigest: [32]byte{2}}}
 	rd := &vCCIPReader{
@@ -121,9 +129,15 @@ func vC04NewOracle(w *vC04World, id int, maxTree uint64) *vC04Oracle {
 			return out, nil
 		},
 		ExpectedNextFn: func(src, dst cciptypes.ChainSelector) (cciptypes.SeqNum, error) {
+			if noRead[src] == id {
+				return 0, fmt.Errorf("chain %d: %w", src, readerpkg.ErrContractReaderNotFound)
+			}
 			return cciptypes.SeqNum(w.logLen[src] + 1), nil // latest, not necessarily finalized
 		},
 		MsgsFn: func(chain cciptypes.ChainSelector, r cciptypes.SeqNumRange) ([]cciptypes.Message, error) {
+			if noRead[chain] == id {
+				return nil, fmt.Errorf("chain %d: %w", chain, readerpkg.ErrContractReaderNotFound)
+			}
 			if o.failMs {
 				o.failMs = false
 				return nil, vErr
@@ -208,9 +222,27 @@ func TestVerif_C04_history(t *testing.T) {
 		if byz {
 			cls += "-byz"
 		}
+		// role assignment of this history: in two histories out of three some source chain is not read by one oracle
+		noRead := map[cciptypes.ChainSelector]int{}
+		for _, ch := range vC04Sources {
+			noRead[ch] = -1
+			if r.Chance(1, 2) {
+				noRead[ch] = r.Intn(vC04N)
+			}
+		}
+		if hi%3 == 0 {
+			for _, ch := range vC04Sources {
+				noRead[ch] = -1
+			}
+		}
+		for _, ch := range vC04Sources {
+			if noRead[ch] >= 0 {
+				cls += fmt.Sprintf("-role%d!%d", noRead[ch], ch)
+			}
+		}
 		oracles := make([]*vC04Oracle, vC04N)
 		for i := range oracles {
-			oracles[i] = vC04NewOracle(w, i, maxTree)
+			oracles[i] = vC04NewOracle(w, i, maxTree, noRead)
 			oracles[i].lag = uint64(r.Intn(3))
 		}
 		var prev ocr3types.Outcome
@@ -278,11 +310,23 @@ func TestVerif_C04_history(t *testing.T) {
 								roots = append(roots, vC04Root{ch: mr.ChainSel, s: uint64(mr.SeqNumsRange.Start()), e: uint64(mr.SeqNumsRange.End()), root: mr.MerkleRoot})
 							}
 							by := r.Intn(3)
+							// prefer a transmitter that does not read one of the report's source chains
+							for _, rt := range roots {
+								if nr := noRead[rt.ch]; nr >= 0 && nr < 3 && r.Bool() {
+									by = nr
+								}
+							}
 							acc, err := oracles[by].p.ShouldAcceptAttestedReport(ctx, uint64(rd+1), rp.ReportWithInfo)
 							if err == nil && acc && !r.Chance(1, 8) { // 1/8: the attested report is lost
 								pending = append(pending, vC04Pending{rep: rp.ReportWithInfo, roots: roots, by: by, readyAt: rd + r.Intn(4)})
-								if r.Chance(1, 6) { // a second transmitter holds the same report (duplicate send)
-									pending = append(pending, vC04Pending{rep: rp.ReportWithInfo, roots: roots, by: (by + 1) % 3, readyAt: rd + r.Intn(6)})
+								if r.Chance(1, 4) { // a second transmitter holds the same report (duplicate send)
+									by2 := (by + 1) % 3
+									for _, rt := range roots {
+										if nr := noRead[rt.ch]; nr >= 0 && nr < 3 && nr != by && r.Bool() {
+											by2 = nr
+										}
+									}
+									pending = append(pending, vC04Pending{rep: rp.ReportWithInfo, roots: roots, by: by2, readyAt: rd + r.Intn(6)})
 								}
 							}
 						}
